@@ -533,7 +533,7 @@ def make_case(item, variants):
 
 def gen_ans_item(rng):
     cs = gen_chars(rng, rng.choice([1, 2, 3, 7, 8, 9]), nul_ok=True)
-    t = rng.choice(["[]", "[]", "T1", "foo", "7", "g(Zt)"])
+    t = rng.choice(["[]", "[]", "[]", "foo", "7"])
     return {"id": "", "op": "ans", "cs1": cs, "t1": t, "cs2": None, "t2": None}
 
 
